@@ -233,8 +233,8 @@ func TestC11(t *testing.T) {
 	ev := vlib.NewEvidence("C11", "exploration",
 		"store level: histories of one observer and 3-4 peers (SetNode with LastSeen ages {0,60,110,130,180,3600 s}, observer and peer keep-alives, unknown/duplicate/self ids) on both drivers vs the tracked-peer model; pool level: signed vipnode_update sessions (ids given directly or inside enode:// URIs) comparing InvalidPeers/ActivePeers/NodePeers with the model; non-trivial = at least one peer was declared invalid (store level: >=3 mutations); distinct = distinct histories")
 	ev.Assume("the 120 s window is only approached to ±10 s; cases longer than 5 s wall are inconclusive")
-	n := vlib.Scale(600, 20000)
-	for i := 0; i < n; i++ {
+	n := vlib.Scale(2000, 60000)
+	parallelCases(n, 12, func(i int) {
 		r := vlib.Rand("C11-store", i)
 		ops := genC11Ops(r)
 		desc := ""
@@ -249,7 +249,7 @@ func TestC11(t *testing.T) {
 		cb()
 		if !conclusive {
 			ev.Inconclusive("time-class")
-			continue
+			return
 		}
 		for _, s := range steps {
 			if strings.HasPrefix(s.Model, "ok inactive=") && s.Model != "ok inactive=" {
@@ -261,18 +261,19 @@ func TestC11(t *testing.T) {
 		if i < 1 {
 			ev.Sample(map[string]interface{}{"layer": "store", "steps": steps})
 		}
-	}
-	m := vlib.Scale(150, 5000)
+	})
+	m := vlib.Scale(400, 10000)
 	for _, driver := range vlib.Drivers() {
-		for i := 0; i < m; i++ {
+		driver := driver
+		parallelCases(m, 12, func(i int) {
 			nontrivial, conclusive, desc := c11Pool(ev, driver, i)
 			if !conclusive {
 				ev.Inconclusive("time-class")
-				continue
+				return
 			}
 			ev.Case(driver+desc, nontrivial)
 			ev.Count("pool-histories:"+driver, 1)
-		}
+		})
 	}
 	finish(t, ev)
 }
